@@ -98,6 +98,9 @@ theorem C18_fact_run_order : Facts.stop_run_order = ["shutdownInputs", "orchestr
 /-- a stop request that arrives while a connection attempt is in progress does not wait for it (the attempt has its own,
 much longer timeout): in the transition system `workerFinal` needs no session and no connect action -/
 theorem C18_fact_stop_during_connect : Facts.stop_connect_branch = ["return leftovers, noReconnect"] := by decide
+/-- when a pipeline's processing worker has stopped, its buffers are destroyed one after the other — `Destroy` bounds its own
+waits (`C18_fact_bounded_waits`) — and nothing waits for a buffer's `Stopped()` (which follows an unbounded wait for the consumer) -/
+theorem C18_fact_pipeline_teardown : Facts.stop_pipeline_teardown = ["settings.bufferer.Destroy", "onStopped"] := by decide
 /-- every connection of the listener has a closer goroutine waiting on the stop request -/
 theorem C18_fact_listener_closers : Facts.stop_listener_closers =
     ["run: AnyAwaitables(listener.stopRequest, abortListener) -> socket.Close", "launchConnectionCloser: AnyAwaitables(listener.stopRequest, abortConn) -> conn.Close"] := by decide
